@@ -7,4 +7,12 @@ META = {
         "note": "trusts that the cfg-gated accessors in src/verif.rs call the production conversions (they are one-line wrappers); 64-bit layout only",
     },
 }
+def _world(text, ref, note="the reference model (harness/src/world.rs) transcribes the statement clause by clause with the stated latitude; hooks H1/H2/H5 are identity outside the harness; interleavings inside kernel/std calls are atomic"):
+    return {"engine": "S", "technique": "bounded-exhaustive exploration of operation histories and in-callback programs against the real loop, judged by a reference model (stateless model checking with iterative deviation bounding)", "text": text, "design_ref": ref, "note": note}
+
+META["C01"] = _world("Every history up to the depth bound over {insert, remove, disable, enable, update, cause, dispatch, stale-token use} x in-callback {remove, disable, enable, update, cause, insert, remove-self+insert, return Remove/Disable/Reregister/reschedule} up to the deviation bound is run on the real loop with ping, channel, timer and fd sources; each callback must be attributable to a live, enabled registration holding a cause of exactly that payload.", "DESIGN.md section 5 C01")
+META["C02"] = _world("All 12 interest x mode registrations of an fd source (re-configured through update), and batches of 3-4 simultaneously ready sources of mixed kinds with in-callback operations: at the end of every Ok dispatch each source that had a pending cause when the wait began and was not disturbed has been called; one-shot exactly once per arming, edge at least once per transition; the kernel interest list is compared with the model after every step.", "DESIGN.md section 5 C02")
+META["C06"] = _world("Every removal path (external, self, other-callback, PostAction::Remove, timer Drop, closed channel, closed ping) x immediate slot reuse x later use of every token ever issued: no callback after removal, source and callback dropped exactly once by the end of the step, dead tokens return InvalidToken and change nothing (loop statistics and registration counters compared before/after), everything released once when the loop is dropped.", "DESIGN.md section 5 C06")
+META["C07"] = _world("Disable/enable/update (also of disabled sources) from outside and from callbacks of the same or another source, around causes produced before, during and after the disabled interval, for ping, channel, timer and level/edge/one-shot fd sources: zero callbacks while disabled (self-disable latitude for the rest of the current process_events), retained causes are owed in the first dispatch after enable, other sources' obligations unchanged.", "DESIGN.md section 5 C07")
+
 NOT_YET = {}
